@@ -35,6 +35,7 @@ from pandas.core.generic import NDFrame
 from datetime import datetime, timedelta
 from tqdm import tqdm
 from collections import deque, defaultdict
+from copy import deepcopy
 import pandas_market_calendars
 import pandas as pd
 import numpy as np
@@ -314,7 +315,9 @@ class TradingEnv(gymnasium.Env):
             # process: restore the clock of this environment before resolving
             # time-dependent contracts (e.g. the lead contract of FutureChain).
             AbstractContract.now = self._now
-        self._queue_actions.appendleft(action)
+        # The caller may reuse the object carrying the action (e.g. overwrite
+        # a pre-allocated array in place): queue its content, not a reference.
+        self._queue_actions.appendleft(deepcopy(action))
         action = self._queue_actions.pop()
         self._process_latent_events()
         rebalancing = self.action_space.make_rebalancing_request(action, self.now(), self.broker)
